@@ -117,3 +117,421 @@ Proof.
   - apply (sweep (fun c => valid_encoded (escape_byte MPathSegment c) MPath) sweep_valid_encoded c Hc).
   - apply IH. exact Ht.
 Qed.
+
+(** ---------- strings.Cut ---------- *)
+Lemma cut_at_app sep a b acc : Forall (fun c => c <> sep) a -> cut_at sep (a ++ sep :: b) acc = (rev acc ++ a, b, true).
+Proof.
+  revert acc. induction a as [|x t IH]; intros acc H; cbn [app cut_at].
+  - rewrite N.eqb_refl, app_nil_r. reflexivity.
+  - apply Forall_cons_iff in H. destruct H as [Hx Ht]. destruct (N.eqb_spec x sep); [contradiction|].
+    rewrite IH by exact Ht. cbn [rev]. rewrite <- app_assoc. reflexivity.
+Qed.
+Lemma cut_at_none sep a acc : Forall (fun c => c <> sep) a -> cut_at sep a acc = (rev acc ++ a, [], false).
+Proof.
+  revert acc. induction a as [|x t IH]; intros acc H; cbn [cut_at].
+  - rewrite app_nil_r. reflexivity.
+  - apply Forall_cons_iff in H. destruct H as [Hx Ht]. destruct (N.eqb_spec x sep); [contradiction|].
+    rewrite IH by exact Ht. cbn [rev]. rewrite <- app_assoc. reflexivity.
+Qed.
+Lemma cut1_app sep a b : Forall (fun c => c <> sep) a -> cut1 sep (a ++ sep :: b) = (a, b, true).
+Proof. intros H. unfold cut1. rewrite cut_at_app by exact H. reflexivity. Qed.
+Lemma cut1_none sep a : Forall (fun c => c <> sep) a -> cut1 sep a = (a, [], false).
+Proof. intros H. unfold cut1. rewrite cut_at_none by exact H. reflexivity. Qed.
+
+Lemma avoid_forall bad l (sep : N) : bytes_avoid bad l = true -> bad sep = true -> Forall (fun c => c <> sep) l.
+Proof.
+  unfold bytes_avoid. rewrite forallb_forall. intros H Hs. apply Forall_forall. intros x Hx E. subst.
+  specialize (H _ Hx). rewrite Hs in H. discriminate.
+Qed.
+Lemma avoid_app bad a b : bytes_avoid bad (a ++ b) = bytes_avoid bad a && bytes_avoid bad b.
+Proof. unfold bytes_avoid. apply forallb_app. Qed.
+Lemma contains_false c l : Forall (fun x => x <> c) l -> contains c l = false.
+Proof.
+  intros H. unfold contains. apply Bool.not_true_is_false. intros E. apply existsb_exists in E. destruct E as [x [Hx Hc]].
+  apply N.eqb_eq in Hc. subst. rewrite Forall_forall in H. apply (H _ Hx). reflexivity.
+Qed.
+
+(** ---------- ParseQuery ---------- *)
+Lemma parse_query_aux_app a b cur :
+  Forall (fun c => c <> 38) a -> parse_query_aux (a ++ 38 :: b) cur = query_piece (rev cur ++ a) ++ parse_query_aux b [].
+Proof.
+  revert cur. induction a as [|x t IH]; intros cur H; cbn [app parse_query_aux].
+  - rewrite app_nil_r. reflexivity.
+  - apply Forall_cons_iff in H. destruct H as [Hx Ht]. destruct (N.eqb_spec x 38); [contradiction|].
+    rewrite IH by exact Ht. cbn [rev]. rewrite <- app_assoc. reflexivity.
+Qed.
+Lemma parse_query_aux_last a cur : Forall (fun c => c <> 38) a -> parse_query_aux a cur = query_piece (rev cur ++ a).
+Proof.
+  revert cur. induction a as [|x t IH]; intros cur H; cbn [parse_query_aux].
+  - rewrite app_nil_r. reflexivity.
+  - apply Forall_cons_iff in H. destruct H as [Hx Ht]. destruct (N.eqb_spec x 38); [contradiction|].
+    rewrite IH by exact Ht. cbn [rev]. rewrite <- app_assoc. reflexivity.
+Qed.
+
+(** a piece "key=QueryEscape(value)" with a plain key (the library's keys are constants) *)
+Definition plain_key (k : bytes) : Prop :=
+  k <> [] /\ bytes_avoid bad_in_value k = true /\ unescape k MQuery = Some k /\ escape k MQuery = k.
+Lemma plain_key_no (sep : N) k : plain_key k -> bad_in_value sep = true -> Forall (fun c => c <> sep) k.
+Proof. intros [_ [H _]] Hs. apply (avoid_forall bad_in_value); assumption. Qed.
+
+Lemma query_piece_kv k v : plain_key k -> wfb v -> query_piece (k ++ 61 :: escape v MQuery) = [(k, v)].
+Proof.
+  intros Hk Hv. unfold query_piece.
+  pose proof (escaped_value_clean v Hv) as Hc.
+  assert (Forall (fun c => c <> 59) (k ++ 61 :: escape v MQuery)) as H59.
+  { apply Forall_app. split; [apply plain_key_no; [exact Hk|reflexivity]|].
+    constructor; [discriminate|]. apply (avoid_forall bad_in_value); [exact Hc|reflexivity]. }
+  rewrite (contains_false 59) by exact H59.
+  destruct Hk as [Hne [Hkc [Hu Hek]]].
+  destruct (k ++ 61 :: escape v MQuery) as [|x l] eqn:E; [destruct k; discriminate|]. rewrite <- E.
+  rewrite cut1_app by (apply (avoid_forall bad_in_value); [exact Hkc|reflexivity]).
+  rewrite Hu, unescape_escape_query by exact Hv. reflexivity.
+Qed.
+
+(** ---------- Values.Encode followed by ParseQuery ---------- *)
+Definition good_pair (kv : bytes * bytes) : Prop := plain_key (fst kv) /\ wfb (snd kv).
+
+Lemma encode_pairs_false l : encode_pairs false l = match l with [] => [] | _ => 38 :: encode_pairs true l end.
+Proof. destruct l as [|[k v] t]; reflexivity. Qed.
+
+Lemma piece_no_amp k v : plain_key k -> wfb v -> Forall (fun c => c <> 38) (k ++ 61 :: escape v MQuery).
+Proof.
+  intros Hk Hv. apply Forall_app. split; [apply plain_key_no; [exact Hk|reflexivity]|].
+  constructor; [discriminate|]. apply (avoid_forall bad_in_value); [apply escaped_value_clean; exact Hv|reflexivity].
+Qed.
+
+Theorem parse_query_encode l : Forall good_pair l -> parse_query (encode_pairs true l) = l.
+Proof.
+  unfold parse_query. induction l as [|[k v] t IH]; intros H; [reflexivity|].
+  apply Forall_cons_iff in H. destruct H as [[Hk Hv] Ht]. cbn [fst snd] in *.
+  assert (escape k MQuery = k) as Hek by apply Hk.
+  cbn [encode_pairs app]. rewrite Hek, encode_pairs_false.
+  destruct t as [|kv t'].
+  - rewrite app_nil_r.
+    change (k ++ [61] ++ escape v MQuery) with (k ++ 61 :: escape v MQuery).
+    rewrite parse_query_aux_last by (apply piece_no_amp; assumption).
+    cbn [rev app]. apply query_piece_kv; assumption.
+  - replace (k ++ 61 :: escape v MQuery ++ 38 :: encode_pairs true (kv :: t'))
+      with ((k ++ 61 :: escape v MQuery) ++ 38 :: encode_pairs true (kv :: t')) by (rewrite <- app_assoc; reflexivity).
+    rewrite parse_query_aux_app by (apply piece_no_amp; assumption).
+    cbn [rev app]. rewrite query_piece_kv by assumption. cbn [app]. f_equal. apply IH. exact Ht.
+Qed.
+
+(** the encoded query is free of the URL's other delimiters *)
+Definition bad_in_query (x : N) : bool := (x <? 32) || (x =? 127) || (x =? 35) || (x =? 63) || (128 <=? x).
+Lemma value_clean_query l : bytes_avoid bad_in_value l = true -> bytes_avoid bad_in_query l = true.
+Proof.
+  unfold bytes_avoid. rewrite !forallb_forall. intros H x Hx. specialize (H x Hx). unfold bad_in_value, bad_in_query in *. lia.
+Qed.
+Lemma encode_pairs_clean first l : Forall good_pair l -> bytes_avoid bad_in_query (encode_pairs first l) = true.
+Proof.
+  revert first. induction l as [|[k v] t IH]; intros first H; [reflexivity|].
+  apply Forall_cons_iff in H. destruct H as [[Hk Hv] Ht]. cbn [fst snd] in *.
+  assert (escape k MQuery = k) as Hek by apply Hk.
+  cbn [encode_pairs]. rewrite !avoid_app, IH by exact Ht. rewrite Hek.
+  rewrite (value_clean_query k) by apply Hk.
+  rewrite (value_clean_query _ (escaped_value_clean v Hv)).
+  destruct first; reflexivity.
+Qed.
+
+(** ---------- URL.String followed by url.Parse on the URLs the library builds ---------- *)
+Lemma has_ctl_avoid bad l : (forall x, (x <? 32) || (x =? 127) = true -> bad x = true) -> bytes_avoid bad l = true -> has_ctl l = false.
+Proof.
+  intros Hb H. unfold has_ctl. apply Bool.not_true_is_false. intros E. apply existsb_exists in E. destruct E as [x [Hx Hc]].
+  unfold bytes_avoid in H. rewrite forallb_forall in H. specialize (H x Hx). rewrite (Hb x Hc) in H. discriminate.
+Qed.
+Lemma has_ctl_app a b : has_ctl (a ++ b) = has_ctl a || has_ctl b.
+Proof. unfold has_ctl. apply existsb_app. Qed.
+
+Lemma rev_head_last (a q : bytes) x : q <> [] -> Forall (fun c => c <> x) q ->
+  match rev (a ++ q) with y :: _ => y =? x | [] => false end = false.
+Proof.
+  intros Hne Hq. destruct (exists_last Hne) as [l [z E]]. subst q.
+  rewrite app_assoc, rev_app_distr. cbn [rev app].
+  apply Forall_app in Hq. destruct Hq as [_ Hz]. apply Forall_cons_iff in Hz. destruct Hz as [Hz _].
+  apply N.eqb_neq. exact Hz.
+Qed.
+
+Definition otp_kind (k : bytes) : Prop := k = s2b "totp" \/ k = s2b "hotp".
+
+Lemma string_of_generated kind label q :
+  otp_kind kind -> wfb label -> q <> [] ->
+  url_string (mkUrl (s2b "otpauth") [] false kind (47 :: label) (47 :: escape label MPathSegment) false q [])
+  = s2b "otpauth://" ++ kind ++ 47 :: escape label MPathSegment ++ 63 :: q.
+Proof.
+  intros Hk Hl Hq.
+  pose proof (escaped_label_valid label Hl) as Hvalid.
+  pose proof (unescape_escape_pathseg label Hl) as Hun.
+  set (esc := escape label MPathSegment) in *. clearbody esc.
+  unfold url_string. cbn [u_scheme u_opaque u_forcequery u_rawquery u_host u_path u_fragment].
+  assert (escaped_path (mkUrl (s2b "otpauth") [] false kind (47 :: label) (47 :: esc) false q []) = 47 :: esc) as Hep.
+  { unfold escaped_path. cbn [u_rawpath u_path].
+    replace (valid_encoded (47 :: esc) MPath) with true by (symmetry; exact Hvalid).
+    rewrite (unescape_slash esc MPath label Hun eq_refl). rewrite beq_refl. reflexivity. }
+  rewrite Hep.
+  destruct q as [|q0 q']; [congruence|].
+  destruct Hk as [-> | ->]; cbn; rewrite ?app_nil_r; reflexivity.
+Qed.
+
+Lemma parse_of_text kind label q :
+  otp_kind kind -> wfb label -> q <> [] -> bytes_avoid bad_in_query q = true ->
+  exists rp, url_parse (s2b "otpauth://" ++ kind ++ 47 :: escape label MPathSegment ++ 63 :: q)
+             = POk (mkUrl (s2b "otpauth") [] false kind (47 :: label) rp false q []).
+Proof.
+  intros Hk Hl Hq Hqc.
+  pose proof (escaped_label_clean label Hl) as Hclean.
+  pose proof (unescape_escape_pathseg label Hl) as Hun.
+  set (esc := escape label MPathSegment) in *. clearbody esc.
+  assert (forall sep, bad_in_label sep = true -> bad_in_query sep = true -> ~ In sep (s2b "otpauth://" ++ kind) -> sep <> 47 -> sep <> 63 ->
+          Forall (fun c => c <> sep) (s2b "otpauth://" ++ kind ++ 47 :: esc ++ 63 :: q)) as Hno.
+  { intros sep B1 B2 Hin H47 H63. rewrite app_assoc. apply Forall_app. split; [apply Forall_forall; intros x Hx E; subst; contradiction|].
+    constructor; [congruence|]. apply Forall_app. split; [apply (avoid_forall bad_in_label); assumption|].
+    constructor; [congruence|apply (avoid_forall bad_in_query); assumption]. }
+  unfold url_parse.
+  rewrite cut1_none.
+  2:{ apply Hno; try reflexivity; try discriminate. destruct Hk as [-> | ->]; vm_compute; intuition discriminate. }
+  assert (has_ctl (s2b "otpauth://" ++ kind ++ 47 :: esc ++ 63 :: q) = false) as Hctl.
+  { rewrite app_assoc, has_ctl_app. replace (has_ctl (s2b "otpauth://" ++ kind)) with false by (destruct Hk as [-> | ->]; reflexivity).
+    cbn [orb]. change (47 :: esc ++ 63 :: q) with ([47] ++ esc ++ [63] ++ q). rewrite !has_ctl_app.
+    rewrite (has_ctl_avoid bad_in_label esc) by (try exact Hclean; intros x Hx; unfold bad_in_label; lia).
+    rewrite (has_ctl_avoid bad_in_query q) by (try exact Hqc; intros x Hx; unfold bad_in_query; lia). reflexivity. }
+  unfold url_parse_nofrag. rewrite Hctl.
+  replace (beq (s2b "otpauth://" ++ kind ++ 47 :: esc ++ 63 :: q) [42]) with false by reflexivity.
+  replace (get_scheme (s2b "otpauth://" ++ kind ++ 47 :: esc ++ 63 :: q))
+    with (Some (s2b "otpauth", s2b "//" ++ kind ++ 47 :: esc ++ 63 :: q)) by reflexivity.
+  replace (to_lower (s2b "otpauth")) with (s2b "otpauth") by reflexivity.
+  (* the trailing-'?' special case does not apply: the query is non-empty and has no '?' *)
+  assert (Forall (fun c => c <> 63) q) as Hq63 by (apply (avoid_forall bad_in_query); [exact Hqc|reflexivity]).
+  assert ((match rev (s2b "//" ++ kind ++ 47 :: esc ++ 63 :: q) with 63 :: _ => true | _ => false end) = false) as Hsuf.
+  { pose proof (rev_head_last (s2b "//" ++ kind ++ 47 :: esc ++ [63]) q 63 Hq Hq63) as R.
+    replace ((s2b "//" ++ kind ++ 47 :: esc ++ [63]) ++ q) with (s2b "//" ++ kind ++ 47 :: esc ++ 63 :: q) in R
+      by (repeat first [rewrite <- app_assoc | progress (cbn [app])]; reflexivity).
+    destruct (rev (s2b "//" ++ kind ++ 47 :: esc ++ 63 :: q)) as [|y l]; [reflexivity|].
+    destruct (N.eqb_spec y 63) as [->|Hy]; [discriminate|].
+    destruct y as [|p]; [reflexivity|]. do 6 (destruct p as [p|p|]; try reflexivity). congruence. }
+  rewrite Hsuf. cbn [andb].
+  replace (s2b "//" ++ kind ++ 47 :: esc ++ 63 :: q) with ((s2b "//" ++ kind ++ 47 :: esc) ++ 63 :: q)
+    by (repeat first [rewrite <- app_assoc | progress (cbn [app])]; reflexivity).
+  rewrite cut1_app.
+  2:{ apply Forall_app. split; [norm_s2b; repeat constructor; discriminate|].
+      apply Forall_app. split; [destruct Hk as [-> | ->]; norm_s2b; repeat constructor; discriminate|].
+      constructor; [discriminate|]. apply (avoid_forall bad_in_label); [exact Hclean|reflexivity]. }
+  destruct Hk as [-> | ->].
+  - replace (has_prefix [47] (s2b "//" ++ s2b "totp" ++ 47 :: esc)) with true by reflexivity.
+    cbn [negb andb].
+    replace (nonempty (s2b "otpauth")) with true by reflexivity. cbn [orb].
+    replace (has_prefix [47; 47] (s2b "//" ++ s2b "totp" ++ 47 :: esc)) with true by reflexivity. cbn [andb].
+    replace (skipn 2 (s2b "//" ++ s2b "totp" ++ 47 :: esc)) with (s2b "totp" ++ 47 :: esc) by reflexivity.
+    rewrite cut1_app by (norm_s2b; repeat constructor; discriminate).
+    replace (parse_authority (s2b "totp")) with (Some (Some (false, s2b "totp"))) by reflexivity.
+    rewrite (unescape_slash esc MPath label Hun eq_refl).
+    eexists. reflexivity.
+  - replace (has_prefix [47] (s2b "//" ++ s2b "hotp" ++ 47 :: esc)) with true by reflexivity.
+    cbn [negb andb].
+    replace (nonempty (s2b "otpauth")) with true by reflexivity. cbn [orb].
+    replace (has_prefix [47; 47] (s2b "//" ++ s2b "hotp" ++ 47 :: esc)) with true by reflexivity. cbn [andb].
+    replace (skipn 2 (s2b "//" ++ s2b "hotp" ++ 47 :: esc)) with (s2b "hotp" ++ 47 :: esc) by reflexivity.
+    rewrite cut1_app by (norm_s2b; repeat constructor; discriminate).
+    replace (parse_authority (s2b "hotp")) with (Some (Some (false, s2b "hotp"))) by reflexivity.
+    rewrite (unescape_slash esc MPath label Hun eq_refl).
+    eexists. reflexivity.
+Qed.
+
+(** ---------- the round trip ---------- *)
+Definition wf_param (p : urlparam) : Prop :=
+  up_issuer p <> [] /\ wfb (up_issuer p) /\ Forall (fun c => c <> 58) (up_issuer p) /\
+  up_account p <> [] /\ wfb (up_account p) /\ up_secret p <> [] /\ wfb (up_secret p) /\
+  up_alg p < 3 /\ up_digits p < 256 /\ up_period p < two63.
+
+Definition eff_digits (p : urlparam) : N := if up_digits p =? 0 then 6 else up_digits p.
+Definition eff_url_period (p : urlparam) : N := if up_period p =? 0 then 30 else up_period p.
+
+Lemma nonempty_true s : s <> [] -> nonempty s = true.
+Proof. destruct s; [congruence|reflexivity]. Qed.
+
+Lemma dec_of_N_wf n : wfb (dec_of_N n).
+Proof.
+  destruct (dec_of_N_spec n) as [_ [H _]]. unfold wfb, digits_only in *. eapply Forall_impl; [|exact H]. intros a Ha. cbv beta in Ha. lia.
+Qed.
+
+Lemma plain_const k : k <> [] -> bytes_avoid bad_in_value k = true -> unescape k MQuery = Some k -> escape k MQuery = k -> plain_key k.
+Proof. intros. repeat split; assumption. Qed.
+
+Lemma alg_string_wf a : wfb (alg_string a).
+Proof. destruct a as [|[[|[]|]|[]|]]; vm_compute; repeat constructor. Qed.
+
+(** parsing the label "Issuer:Account" back *)
+Lemma label_cut issuer account : Forall (fun c => c <> 58) issuer -> cut1 58 (issuer ++ 58 :: account) = (issuer, account, true).
+Proof. apply cut1_app. Qed.
+
+Lemma atoi_dec n : n < two63 -> atoi (dec_of_N n) = Some (Z.of_N n).
+Proof. intros H. rewrite atoi_dec_of_N. apply N.ltb_lt in H. rewrite H. reflexivity. Qed.
+
+Lemma dec_nonempty n : exists c t, dec_of_N n = c :: t.
+Proof. destruct (dec_of_N_spec n) as [H _]. destruct (dec_of_N n) as [|c t]; [congruence|eauto]. Qed.
+
+Theorem roundtrip_totp p : wf_param p ->
+  exists u u', generate_totp_url p = Ok u /\ u_scheme u = s2b "otpauth" /\ u_host u = s2b "totp" /\
+               url_parse (url_string u) = POk u' /\ u_scheme u' = s2b "otpauth" /\ u_host u' = s2b "totp" /\
+               parse_otpauth_url (Some u') =
+               Ok (mkUrlParam (up_issuer p) (up_account p) (eff_url_period p) (up_secret p) (eff_digits p) (up_alg p)).
+Proof.
+  intros [Hi [Hiw [Hic [Ha [Haw [Hs [Hsw [Halg [Hdig Hper]]]]]]]]].
+  unfold generate_totp_url, generate_otp_url.
+  rewrite (nonempty_true _ Hi), (nonempty_true _ Ha), (nonempty_true _ Hs). cbn [negb].
+  change totp_url_zero_period with (Some 30). fold (eff_url_period p). fold (eff_digits p).
+  set (label := up_issuer p ++ [58] ++ up_account p).
+  set (pairs := [(s2b "algorithm", alg_string (up_alg p)); (s2b "digits", dec_of_N (eff_digits p)); (s2b "issuer", up_issuer p);
+                 (s2b "period", dec_of_N (eff_url_period p)); (s2b "secret", up_secret p)]).
+  assert (Forall good_pair pairs) as Hgood.
+  { unfold pairs. repeat constructor; cbn [fst snd]; try (apply plain_const; [discriminate|reflexivity|reflexivity|reflexivity]);
+      try assumption; try apply dec_of_N_wf; apply alg_string_wf. }
+  assert (wfb label) as Hlw.
+  { unfold label. apply wfb_app; [exact Hiw|]. apply wfb_app; [repeat constructor|exact Haw]. }
+  eexists. 
+  pose proof (parse_of_text (s2b "totp") label (encode_pairs true pairs) (or_introl eq_refl) Hlw) as HP.
+  destruct HP as [rp HP]; [discriminate|apply encode_pairs_clean; exact Hgood|].
+  eexists. split; [reflexivity|]. split; [reflexivity|]. split; [reflexivity|].
+  split.
+  { rewrite string_of_generated; [|left; reflexivity|exact Hlw|discriminate]. exact HP. }
+  split; [reflexivity|]. split; [reflexivity|].
+  unfold parse_otpauth_url. cbn [u_scheme u_host u_path u_rawquery].
+  replace (beq (s2b "otpauth") (s2b "otpauth")) with true by reflexivity.
+  replace (to_lower (s2b "totp")) with (s2b "totp") by reflexivity.
+  replace (beq (s2b "totp") (s2b "totp")) with true by reflexivity. cbn [negb andb].
+  unfold label. change (up_issuer p ++ [58] ++ up_account p) with (up_issuer p ++ 58 :: up_account p).
+  rewrite label_cut by exact Hic. cbn [negb].
+  rewrite (parse_query_encode pairs Hgood).
+  unfold pairs.
+  replace (query_get (s2b "digits") _) with (dec_of_N (eff_digits p)) by reflexivity.
+  replace (query_get (s2b "algorithm") _) with (alg_string (up_alg p)) by reflexivity.
+  replace (query_get (s2b "period") _) with (dec_of_N (eff_url_period p)) by reflexivity.
+  replace (query_get (s2b "secret") _) with (up_secret p) by reflexivity.
+  assert (eff_digits p < 256) as Hd by (unfold eff_digits; destruct (up_digits p =? 0); lia).
+  assert (eff_url_period p < two63) as Hp' by (unfold eff_url_period, two63 in *; destruct (up_period p =? 0); lia).
+  destruct (dec_nonempty (eff_digits p)) as [c1 [t1 E1]]. rewrite E1. rewrite <- E1.
+  rewrite atoi_dec by (unfold two63; lia).
+  replace ((0 <=? Z.of_N (eff_digits p))%Z && (Z.of_N (eff_digits p) <=? 255)%Z) with true by lia.
+  rewrite N2Z.id.
+  destruct (dec_nonempty (eff_url_period p)) as [c2 [t2 E2]]. rewrite E2. rewrite <- E2.
+  rewrite atoi_dec by exact Hp'.
+  replace (0 <=? Z.of_N (eff_url_period p))%Z with true by lia. rewrite N2Z.id.
+  assert (up_alg p = 0 \/ up_alg p = 1 \/ up_alg p = 2) as Hcase by lia.
+  destruct Hcase as [E|[E|E]]; rewrite E; reflexivity.
+Qed.
+
+Theorem roundtrip_hotp p : wf_param p ->
+  exists u u', generate_hotp_url p = Ok u /\ u_scheme u = s2b "otpauth" /\ u_host u = s2b "hotp" /\
+               url_parse (url_string u) = POk u' /\ u_scheme u' = s2b "otpauth" /\ u_host u' = s2b "hotp" /\
+               parse_otpauth_url (Some u') =
+               Ok (mkUrlParam (up_issuer p) (up_account p) 30 (up_secret p) (eff_digits p) (up_alg p)).
+Proof.
+  intros [Hi [Hiw [Hic [Ha [Haw [Hs [Hsw [Halg [Hdig Hper]]]]]]]]].
+  unfold generate_hotp_url, generate_otp_url.
+  rewrite (nonempty_true _ Hi), (nonempty_true _ Ha), (nonempty_true _ Hs). cbn [negb].
+  fold (eff_digits p).
+  set (label := up_issuer p ++ [58] ++ up_account p).
+  set (pairs := [(s2b "algorithm", alg_string (up_alg p)); (s2b "counter", s2b "0"); (s2b "digits", dec_of_N (eff_digits p)); (s2b "issuer", up_issuer p); (s2b "secret", up_secret p)]).
+  assert (Forall good_pair pairs) as Hgood.
+  { unfold pairs. repeat constructor; cbn [fst snd]; try (apply plain_const; [discriminate|reflexivity|reflexivity|reflexivity]);
+      try assumption; try apply dec_of_N_wf; try apply alg_string_wf; repeat constructor. }
+  assert (wfb label) as Hlw.
+  { unfold label. apply wfb_app; [exact Hiw|]. apply wfb_app; [repeat constructor|exact Haw]. }
+  eexists. 
+  pose proof (parse_of_text (s2b "hotp") label (encode_pairs true pairs) (or_intror eq_refl) Hlw) as HP.
+  destruct HP as [rp HP]; [discriminate|apply encode_pairs_clean; exact Hgood|].
+  eexists. split; [reflexivity|]. split; [reflexivity|]. split; [reflexivity|].
+  split.
+  { rewrite string_of_generated; [|right; reflexivity|exact Hlw|discriminate]. exact HP. }
+  split; [reflexivity|]. split; [reflexivity|].
+  unfold parse_otpauth_url. cbn [u_scheme u_host u_path u_rawquery].
+  replace (beq (s2b "otpauth") (s2b "otpauth")) with true by reflexivity.
+  replace (to_lower (s2b "hotp")) with (s2b "hotp") by reflexivity.
+  replace (beq (s2b "hotp") (s2b "totp")) with false by reflexivity.
+  replace (beq (s2b "hotp") (s2b "hotp")) with true by reflexivity. cbn [negb andb].
+  unfold label. change (up_issuer p ++ [58] ++ up_account p) with (up_issuer p ++ 58 :: up_account p).
+  rewrite label_cut by exact Hic. cbn [negb].
+  rewrite (parse_query_encode pairs Hgood).
+  unfold pairs.
+  replace (query_get (s2b "digits") _) with (dec_of_N (eff_digits p)) by reflexivity.
+  replace (query_get (s2b "algorithm") _) with (alg_string (up_alg p)) by reflexivity.
+  replace (query_get (s2b "period") _) with (@nil N) by reflexivity.
+  replace (query_get (s2b "secret") _) with (up_secret p) by reflexivity.
+  assert (eff_digits p < 256) as Hd by (unfold eff_digits; destruct (up_digits p =? 0); lia).
+  destruct (dec_nonempty (eff_digits p)) as [c1 [t1 E1]]. rewrite E1. rewrite <- E1.
+  rewrite atoi_dec by (unfold two63; lia).
+  replace ((0 <=? Z.of_N (eff_digits p))%Z && (Z.of_N (eff_digits p) <=? 255)%Z) with true by lia.
+  rewrite N2Z.id.
+  assert (up_alg p = 0 \/ up_alg p = 1 \/ up_alg p = 2) as Hcase by lia.
+  destruct Hcase as [E|[E|E]]; rewrite E; reflexivity.
+Qed.
+
+(** ---------- parsing returns exactly the numbers written ---------- *)
+Theorem parse_numbers_exact u p :
+  parse_otpauth_url (Some u) = Ok p ->
+  let q := parse_query (u_rawquery u) in
+  (query_get (s2b "digits") q = [] /\ up_digits p = 6 \/
+   exists z, atoi (query_get (s2b "digits") q) = Some z /\ (0 <= z <= 255)%Z /\ Z.of_N (up_digits p) = z) /\
+  (query_get (s2b "period") q = [] /\ up_period p = 30 \/
+   exists z, atoi (query_get (s2b "period") q) = Some z /\ (0 <= z)%Z /\ Z.of_N (up_period p) = z).
+Proof.
+  unfold parse_otpauth_url. intros H.
+  destruct (negb (beq (u_scheme u) (s2b "otpauth"))); [discriminate|].
+  destruct (negb (beq (to_lower (u_host u)) (s2b "totp")) && negb (beq (to_lower (u_host u)) (s2b "hotp")));
+    [destruct (all_ascii (u_host u)); discriminate|].
+  destruct (cut1 58 _) as [[issuer account] found]. destruct (negb found); [discriminate|].
+  cbv zeta. set (q := parse_query (u_rawquery u)) in *.
+  destruct (query_get (s2b "digits") q) as [|d0 dt] eqn:Ed.
+  - match type of H with context [match ?X with Some alg => _ | None => Err (EFmt T_url_alg _ _) end] => destruct X as [alg|]; [|discriminate] end.
+    destruct (query_get (s2b "period") q) as [|p0 pt] eqn:Ep.
+    + inversion H. subst p. cbn. split; left; split; reflexivity.
+    + destruct (atoi (p0 :: pt)) as [z|] eqn:Ez; [|discriminate].
+      destruct (0 <=? z)%Z eqn:Ezz; [|discriminate]. inversion H. subst p. cbn.
+      split; [left; split; reflexivity|right; exists z; repeat split; lia].
+  - destruct (atoi (d0 :: dt)) as [zd|] eqn:Ezd; [|discriminate].
+    destruct ((0 <=? zd)%Z && (zd <=? 255)%Z) eqn:Er; [|discriminate].
+    match type of H with context [match ?X with Some alg => _ | None => Err (EFmt T_url_alg _ _) end] => destruct X as [alg|]; [|discriminate] end.
+    destruct (query_get (s2b "period") q) as [|p0 pt] eqn:Ep.
+    + inversion H. subst p. cbn. split; [right; exists zd; repeat split; lia|left; split; reflexivity].
+    + destruct (atoi (p0 :: pt)) as [z|] eqn:Ez; [|discriminate].
+      destruct (0 <=? z)%Z eqn:Ezz; [|discriminate]. inversion H. subst p. cbn.
+      split; right; [exists zd|exists z]; repeat split; lia.
+Qed.
+
+(** Atoi returns the integer written: for a decimal numeral with optional sign, its value *)
+Definition atoi_core (neg : bool) (ds : bytes) : option Z :=
+  match ds with
+  | [] => None
+  | _ => if forallb is_dec_digit ds then
+           let v := dec_val ds in
+           if neg then (if v <=? two63 then Some (- Z.of_N v)%Z else None)
+           else (if v <? two63 then Some (Z.of_N v) else None)
+         else None
+  end.
+Lemma atoi_minus t : atoi (45 :: t) = atoi_core true t.
+Proof. reflexivity. Qed.
+Lemma atoi_plus t : atoi (43 :: t) = atoi_core false t.
+Proof. reflexivity. Qed.
+Lemma atoi_nosign c t : c <> 45 -> c <> 43 -> atoi (c :: t) = atoi_core false (c :: t).
+Proof.
+  intros H1 H2. unfold atoi, atoi_core. destruct c as [|q]; [reflexivity|].
+  do 6 (destruct q as [q|q|]; try reflexivity); congruence.
+Qed.
+Lemma atoi_core_value neg ds z : atoi_core neg ds = Some z ->
+  ds <> [] /\ forallb is_dec_digit ds = true /\ z = (if neg then - Z.of_N (dec_val ds) else Z.of_N (dec_val ds))%Z.
+Proof.
+  unfold atoi_core. intros Hd. destruct ds as [|c t]; [discriminate|]. destruct (forallb is_dec_digit (c :: t)); [|discriminate].
+  cbv zeta in Hd. split; [discriminate|]. split; [reflexivity|].
+  destruct neg; [destruct (_ <=? _)|destruct (_ <? _)]; inversion Hd; reflexivity.
+Qed.
+
+Theorem atoi_value s z : atoi s = Some z ->
+  exists ds, ds <> [] /\ forallb is_dec_digit ds = true /\
+             (s = ds /\ z = Z.of_N (dec_val ds) \/ s = 43 :: ds /\ z = Z.of_N (dec_val ds) \/ s = 45 :: ds /\ z = (- Z.of_N (dec_val ds))%Z).
+Proof.
+  intros H. destruct s as [|c t]; [discriminate|].
+  destruct (N.eqb_spec c 45) as [->|H45]; [|destruct (N.eqb_spec c 43) as [->|H43]].
+  - rewrite atoi_minus in H. apply atoi_core_value in H. destruct H as [H1 [H2 H3]]. exists t. repeat split; auto.
+  - rewrite atoi_plus in H. apply atoi_core_value in H. destruct H as [H1 [H2 H3]]. exists t. repeat split; auto.
+  - rewrite atoi_nosign in H by assumption. apply atoi_core_value in H. destruct H as [H1 [H2 H3]]. exists (c :: t). repeat split; auto.
+Qed.
